@@ -53,7 +53,7 @@ for e in kf:
     if e['status'] != 'known':
         continue
     byf.setdefault((e['finding'], e['property']), []).append(e)
-for (fid, pid), es in sorted(byf.items(), key=lambda x: (int(x[0][0][1:]), x[0][1])):
+for (fid, pid), es in sorted(byf.items(), key=lambda x: (int(re.sub(r'\D', '', x[0][0]) or 0), x[0][0], x[0][1])):
     what = es[0]['what'].replace('|', '/')
     out.append(f"| {fid} | {pid} | {len(es)} | {what} |")
 
@@ -74,9 +74,9 @@ for pid in claimed:
     sc = cov.get('seeded_changes')
     if not sc:
         continue
-    for smp in sc.get('samples', []):
+    for smp in (sc.get('samples') or []):
         seedres[smp['seed']] = ('reported' if smp['reported'] else 'NOT reported', (smp.get('first_reports') or [''])[0])
-    for st in sc.get('stale', []):
+    for st in (sc.get('stale') or []):
         seedres[st.split(':')[0]] = ('stale (' + st.split(': ', 1)[-1] + ')', '')
 nd = nm = 0
 for d in sorted(glob.glob(f'{V}/seeded/C*_*')):
